@@ -8,14 +8,16 @@ def check(tier):
     for c, k, m in sat:
         classlemmas.replay_sat(chk, c, k, m)
     # the same rule on a caller-supplied converter that omits defaults by itself (the hooks override that per attribute)
-    classlemmas.set_variant("omit")
+    variants = ["omit"] + (["nodetail", "omit-nodetail"] if tier == "thorough" else [])
     try:
-        sat2, cases2 = classlemmas.run_queries(chk, ["emit", "def"])
-        for c, k, m in sat2:
-            classlemmas.replay_sat(chk, c, k, m)
+        for v in variants:
+            classlemmas.set_variant(v)
+            sat2, cases2 = classlemmas.run_queries(chk, ["emit", "def"])
+            for c, k, m in sat2:
+                classlemmas.replay_sat(chk, c, k, m)
     finally:
         classlemmas.set_variant(None)
-    chk.ev.coverage["converters_analysed"] = [classlemmas.VARIANTS[None], classlemmas.VARIANTS["omit"]]
+    chk.ev.coverage["converters_analysed"] = [classlemmas.VARIANTS[None]] + [classlemmas.VARIANTS[v] for v in variants]
     chk.ev.coverage["functions_encoded"] = [{"fn": "unstructure_<Class> and structure_<Class> (cattrs-generated from attrs.fields, _to_camel_case, _omit / is_special_property) for %d classes" % len(cases)}]
     chk.ev.coverage["bounds"] = {"attributes": "every attribute of every class simultaneously set/unset (all 2^n none-vectors), no bound", "values": "abstracted to {None, equals-default, other}"}
     chk.ev.coverage["outside_bounds"] = ["behaviour of the per-attribute unstructure handlers (trusted cattrs machinery)"]
